@@ -538,8 +538,8 @@ def check(prop, tier):
         "runs_per_hour": int(len(res_lines) / wall * 3600) if wall > 0 else 0,
         "seeds": {"VERIF_SEED": seed, "run_seed": "mix(mix(VERIF_SEED, hash(property)), index)", "indices": f"0..{max([int(d['i']) for d in res_lines] + [0])}"},
         "simulated_time": {"unit": "logical steps (plan steps + intercepted I/O and read-seam calls); ezc3d has no clock", "plan_steps": steps, "io_and_read_seam_calls": io},
-        "fault_kinds_fired": {k: v for k, v in disk.items() if k in ("open_fail", "budget", "eio", "short_write", "eintr_w", "eintr_r", "short_read")},
-        "io_totals": {k: v for k, v in disk.items() if k not in ("open_fail", "budget", "eio", "short_write", "eintr_w", "eintr_r", "short_read")},
+        "fault_kinds_fired": {k: v for k, v in disk.items() if k in ("open_fail", "budget", "eio", "short_write", "eintr_w", "eintr_r", "short_read", "seek_fail")},
+        "io_totals": {k: v for k, v in disk.items() if k not in ("open_fail", "budget", "eio", "short_write", "eintr_w", "eintr_r", "short_read", "seek_fail")},
         "distinct_abstract_states": len(states),
         "distinct_op_bigrams": len(bigrams),
         "probes": probes,
